@@ -58,10 +58,24 @@ type SoftDeleter interface {
 	SoftDelete(restore bool) string
 }
 
+// Importer: targets that can add a key version made of given key material (Policy.ImportPublicOrPrivate).
+type Importer interface {
+	ImportVersion() string
+}
+
+// CommitFaulter: targets whose mutating operations run inside a storage transaction (the endpoints): the Commit of the
+// next one is refused.
+type CommitFaulter interface {
+	FailCommit()
+}
+
 const InjectedPutError = "verif: injected put failure"
 
 // Classify maps an error message of keysutil / the transit endpoints to the model's error class.
 func Classify(msg string) string {
+	if strings.Contains(msg, InjectedCommitError) {
+		return "commit"
+	}
 	has := func(s string) bool { return strings.Contains(msg, s) }
 	switch {
 	case has(InjectedPutError):
@@ -1268,6 +1282,79 @@ func (g *gen) directedFaultCase(k int) {
 	g.doDecPlain(1)
 }
 
+// directedImportFaultCase: a key version is imported while the k-th Put of its Persist fails. The call answers with the
+// error and the ring must be as it was: for the trace model an import is a rotation (a new version with fresh key
+// material), and its failure is the failure of a rotation at the same Put.
+func (g *gen) directedImportFaultCase(im Importer, k int) {
+	g.typ, g.derived, g.convergent = "aes256-gcm96", false, false
+	cls := g.t.New(g.typ, false, false)
+	g.epoch++
+	g.emit(g.polResult(cls), "new", g.typ, "0", "0")
+	g.opRotate()
+	g.doEnc(0, nil, nil, nil, []byte("version two"))
+	g.t.FailPut(k)
+	g.faultSeen = true
+	g.emit("ok", "failput", strconv.Itoa(k))
+	before := g.info.Latest
+	cls = im.ImportVersion()
+	res := g.polResult(cls)
+	if cls != "" && g.info.Latest != before {
+		res = viol(res, "an import of a key version that failed ("+cls+") left the ring changed: latest version "+strconv.Itoa(before)+" -> "+strconv.Itoa(g.info.Latest), "failed-import-takes-effect")
+	}
+	g.emit(res, "rotate")
+	if g.lastCls == "persist:put" {
+		g.failedFaults = append(g.failedFaults, "import")
+	}
+	g.t.FailPut(0)
+	g.doEnc(0, nil, nil, nil, []byte("after the failed import"))
+	g.doDecPlain(len(g.arts))
+	g.doDecPlain(1)
+	cls = im.ImportVersion()
+	g.emit(g.polResult(cls), "rotate")
+	g.doEnc(0, nil, nil, nil, []byte("under the imported version"))
+	g.doDecPlain(len(g.arts))
+	g.doDecPlain(1)
+}
+
+// directedCommitFaultCase: the transaction Commit of a rotate / config / trim request is refused. The request answers
+// with the error and must have no effect: the ring reported afterwards, the version used by the next encryption and the
+// decryptability of every version inside the (unchanged) window are those of the history without the request.
+func (g *gen) directedCommitFaultCase(cf CommitFaulter, kind string) {
+	g.typ, g.derived, g.convergent = "aes256-gcm96", false, false
+	cls := g.t.New(g.typ, false, false)
+	g.epoch++
+	g.emit(g.polResult(cls), "new", g.typ, "0", "0")
+	g.doEnc(0, nil, nil, nil, []byte("version one"))
+	g.opRotate()
+	g.opRotate()
+	g.doEnc(0, nil, nil, nil, []byte("version three"))
+	if kind == "trim" {
+		g.doConfig(ip(2), ip(2), nil, nil, nil)
+	}
+	cf.FailCommit()
+	g.faultSeen = true
+	g.emit("ok", "failcommit")
+	switch kind {
+	case "rotate":
+		g.opRotate()
+	case "config":
+		g.doConfig(ip(3), ip(3), nil, nil, nil)
+	case "trim":
+		g.doTrim(2)
+	}
+	if g.lastCls == "commit" {
+		g.failedFaults = append(g.failedFaults, kind)
+	}
+	g.doEnc(0, nil, nil, nil, []byte("after the failed commit"))
+	g.doDecPlain(len(g.arts))
+	g.doDecPlain(1)
+	g.doDecPlain(2)
+	g.opRotate()
+	g.doEnc(0, nil, nil, nil, []byte("after a good rotation"))
+	g.doDecPlain(len(g.arts))
+	g.doDecPlain(1)
+}
+
 // directedLegacyConvergentCase: a convergent key ring in the form the convergent-version-2 code stored it (policy-level
 // convergent_version 2, no per-key value) — produced by editing a backup of a fresh key and restoring it — is rotated;
 // the new key version carries the current convergent scheme, so encrypt accepts it: decrypt must give the plaintext
@@ -1358,6 +1445,16 @@ func Run(out *vh.Out, rng *vh.Rand, mk func(useCache bool) Target, cases, opsPer
 		g.ctxs = [][]byte{[]byte("ctx-a"), []byte("ctx-b"), r.Bytes(1 + r.Intn(20))}
 		g.aads = [][]byte{[]byte("aad-1"), []byte("aad-2"), r.Bytes(1 + r.Intn(24))}
 		g.msgs = [][]byte{nil, []byte("m"), []byte("hello world"), r.Bytes(1 + r.Intn(48)), r.Bytes(300), r.Bytes(32), r.Bytes(32), r.Bytes(32)}
+		if im, ok := g.t.(Importer); ok && faults && c >= 9 && c < 11 {
+			g.directedImportFaultCase(im, c-8)
+			g.t.Close()
+			continue
+		}
+		if cf, ok := g.t.(CommitFaulter); ok && faults && c >= 6 && c < 9 {
+			g.directedCommitFaultCase(cf, []string{"rotate", "config", "trim"}[c-6])
+			g.t.Close()
+			continue
+		}
 		if faults && c < 6 {
 			switch {
 			case c < 2:
